@@ -839,6 +839,14 @@ func (vc *VC) dispatchObligations(fr *Frame, c *Contract) {
 					seen[s] = true
 					work = append(work, s)
 				}
+				// leaving the loop from inside the body (a `break`, not the loop condition and not a return)
+				// before any of the functions was called: the iteration was abandoned and the code goes on
+				if !li.blocks[s] && b != li.header && !endsInReturn(s) {
+					o.Status = "sat"
+					o.Model = fmt.Sprintf("an iteration of the loop can leave it through block %d (%s) and carry on at block %d without calling any of %s and without returning", b.Index, vc.w.Fset.Position(lastPos(b)).String(), s.Index, cl.Raw.Text)
+					o.Output = o.Model
+					break
+				}
 			}
 		}
 		// `freshmap:M`: every map updated in this loop was made inside loop M (a map per iteration of M, not one
@@ -870,6 +878,18 @@ func (vc *VC) dispatchObligations(fr *Frame, c *Contract) {
 		}
 		vc.obls = append(vc.obls, o)
 	}
+}
+
+// endsInReturn: the block returns or panics (after straight-line code only).
+func endsInReturn(b *ssa.BasicBlock) bool {
+	if len(b.Instrs) == 0 {
+		return false
+	}
+	switch b.Instrs[len(b.Instrs)-1].(type) {
+	case *ssa.Return, *ssa.Panic:
+		return true
+	}
+	return false
 }
 
 func lastPos(b *ssa.BasicBlock) token.Pos {
